@@ -341,4 +341,10 @@ def repairIndexD (dry : Bool) (readHeader : Nat → Option Nat → Nat → Optio
     (readHeader r.1 r.2.1 r.2.2).bind fun bl => if dry then none else some { id := r.1, blobs := bl, size := none }
   st.out ++ (if newPacks.isEmpty then [] else [{ packs := newPacks, packsToDelete := [] }])
 
+/-- the header reads `repair_index` performs (`checker.into_pack_to_read()`: the packs queued by `check_pack`, then every pack
+file no index file listed), as `(pack, size hint, pack size)` — the `dry_run` flag is a parameter to show it has no influence. -/
+def repairReadsD (dry : Bool) (store : List (Nat × Nat)) (files : List IndexFile) (readAll : Bool) : List (Nat × Option Nat × Nat) :=
+  let st := files.foldl (repairFileD dry readAll) { remaining := store, toRead := [], out := [] }
+  st.toRead ++ st.remaining.map (fun e => (e.1, none, e.2))
+
 end Rustic.Index
